@@ -8,6 +8,18 @@ Streams (every case is self-contained and replayable):
   cmse     retrospective.calculate_mse on real screens and holders of posterior samples
   space    generate_full_combinatoric_space and correlation_matrix on real screens + holders
 Oracles: independent loop-by-loop recomputation on the implementation's outputs.  Tie: `Batchie.Metrics` at Float.
+
+Auditor round (a-c09-c20): chain labellings that are not sorted contiguous blocks (alternating, descending, shuffled, negative
+labels), transposed / strided prediction buffers, screens with permuted treatment and sample ids + shuffled mapping rows and
+partially observed plates (via harness.c09.decorate_raw), guarded metric calls (an exception of a metric used to crash the harness).
+Mutants tried on a scratch copy: positional sample-name lookup in generate_full_combinatoric_space and positional labels in
+correlation_matrix (both MISSED before sample ids were permuted), correlation over observed samples only (MISSED before partially
+observed screens), median instead of mean, np.sort(...)[:, -1] restricted to two columns, strict mode not refusing the first row,
+ddof=1 on square matrices, size-weighted inter-chain variance, mean_predictions over axis 0 on square matrices, truncated names /
+int8 chains / float32 predictions in save_h5, centring over axis 1, mean instead of viability predictions, observations broadcast
+along the wrong axis (crashed the harness before the guard) -- all red with a replay now.  Equivalent within the property's
+quantifier: re-sorting the mapping rows before `combinations` (row order of the space is not part of the property; the tie
+notices), np.prod special-cased for one effect (cannot occur for a non-single row).
 """
 import itertools
 import math
@@ -158,8 +170,16 @@ def run_eval(case, res, lines, tmp):
     mu_c = fsum(cm) / len(cm)
     want["interchain"] = fsum((x - mu_c) ** 2 for x in cm) / len(cm)
     want["meanpred"] = [fsum(float(preds[e, k]) for k in range(K)) / K for e in range(E)]
-    got = {"mse": float(ev.mse()), "msevar": float(ev.mse_variance()), "interchain": float(ev.inter_chain_mse_variance()),
-           "meanpred": [float(x) for x in ev.mean_predictions]}
+    got = {}
+    for k, f in (("mse", lambda: float(ev.mse())), ("msevar", lambda: float(ev.mse_variance())),
+                 ("interchain", lambda: float(ev.inter_chain_mse_variance())),
+                 ("meanpred", lambda: [float(x) for x in np.asarray(ev.mean_predictions).reshape(-1)])):
+        try:
+            got[k] = f()
+        except Exception as e:  # noqa  (an exception of the implementation is behaviour, not a harness crash)
+            res.fail("evaluation metric raises on a consistent evaluation", case, {"metric": k, "error": repr(e)[:200]}, "a value",
+                     signature="C20:" + k)
+            got[k] = [float("nan")] * E if k == "meanpred" else float("nan")
     msgs = {"mse": "mse is not the mean squared error over all (experiment, posterior sample) pairs",
             "msevar": "mse_variance is not the variance across experiments of the per-experiment mean squared error",
             "interchain": "inter_chain_mse_variance is not the variance of the per-chain MSEs",
